@@ -1,2 +1,95 @@
-(* placeholder until the proofs land *)
-From MW Require Import Common.Str C12.Model.
+(* C12 — property theorems only.  Each is closed by `exact <lemma>` and followed by Print Assumptions; the check
+   re-compiles this file on every run.  `py_splitname` is the model of NsHandler.splitname (Model.v) instantiated with
+   the tables generated from the running CPython (Gen_unicode.v); `all_sites` are the bundled siteinfo files
+   (Gen_sites.v), both regenerated on every run. *)
+From Coq Require Import List NArith ZArith Bool.
+From MW Require Import Common.Str C12.Model C12.ListLemmas C12.Proofs C12.Inst C12.ProofsInst.
+Import ListNotations.
+Open Scope N_scope.
+
+(* The translator found exactly the 12 bundled sites. *)
+Theorem C12_sites : length all_sites = 12%nat.
+Proof. exact twelve_sites. Qed.
+Print Assumptions C12_sites.
+
+(* SHAPE.  For every bundled site, every title (any code points) and every default namespace: if splitname returns
+   (k, P, F) then the site defines namespace k with local name L, F is L ++ ":" ++ P (just P when L is empty, i.e.
+   the main namespace), P is a fixed point of first-letter capitalisation, and k is the default namespace, 0 (after a
+   leading colon) or a namespace with a non-empty name found by lookup. *)
+Theorem C12_shape : forall nm st t dns k P F,
+  In (nm, st) all_sites -> py_splitname st t dns = Ok (k, P, F) ->
+  exists L, star_of st k = Some L /\ F = prefix_of L ++ P /\
+            maybe_capitalize py_upper_char (s_capitalize st) P = P /\
+            (k = dns \/ k = 0%Z \/ L <> []).
+Proof. exact py_shape. Qed.
+Print Assumptions C12_shape.
+
+(* IDEMPOTENCE.  The canonical full name F of ANY title normalises to the same triple again, in its own namespace k
+   as default namespace (for main-namespace names that is default namespace 0: an unprefixed name is by definition read
+   in the default namespace), and — whenever the namespace has a non-empty local name — under EVERY default namespace. *)
+Theorem C12_idempotent : forall nm st t dns k P F,
+  In (nm, st) all_sites -> py_splitname st t dns = Ok (k, P, F) ->
+  py_splitname st F k = Ok (k, P, F) /\
+  (star_of st k <> Some [] -> forall dns', py_splitname st F dns' = Ok (k, P, F)).
+Proof. exact py_idempotent. Qed.
+Print Assumptions C12_idempotent.
+
+(* SPELLING INVARIANCE, titles with a namespace prefix.  n is any name the site gives to namespace k (local "*",
+   canonical, or alias; names_of), s any per-letter case variant of n (cv: each letter x as x, x.upper() or x.lower()
+   when that is one character), NS' and P' spell s and the remainder p with every space written as a non-empty run of
+   ' ' / '_' (expands); E1, E3, E4 (and E2 after an optional leading colon) are strings of edge characters (white
+   space, U+200E, U+200F, '_'), W white space or '_' before the colon.  The result is always
+   (k, capitalised p, local name ++ ":" ++ capitalised p): it depends on none of the spelling choices and k is the id
+   the site defines for the name.  p is any tidy remainder (no '_', no double space, no edge character at either end),
+   possibly empty, possibly containing ':'. *)
+Theorem C12_spelling_invariant : forall nm st k L n s NS' W p P' E1 C E3 E4 dns,
+  In (nm, st) all_sites -> In n (names_of st k) -> n <> [] -> star_of st k = Some L ->
+  cv py_upper_char py_lower_char s n -> expands s NS' ->
+  Forall (ws' py_is_ws) W -> Forall (edge' py_is_ws) E1 ->
+  Forall (edge' py_is_ws) (match C with Some E2 => E2 | None => [] end) ->
+  Forall (edge' py_is_ws) E3 -> Forall (edge' py_is_ws) E4 ->
+  tidy py_is_ws p -> expands p P' ->
+  py_splitname st (E1 ++ lead C ++ NS' ++ W ++ c_colon :: E3 ++ P' ++ E4) dns
+  = Ok (k, maybe_capitalize py_upper_char (s_capitalize st) p,
+        prefix_of L ++ maybe_capitalize py_upper_char (s_capitalize st) p).
+Proof. exact py_spelling. Qed.
+Print Assumptions C12_spelling_invariant.
+
+(* SPELLING INVARIANCE, titles without prefix (p contains no ':'): the namespace is the default namespace, or 0 after
+   a leading colon; the result depends on the decorations in no other way. Two remainders that differ in the case of
+   the first letter give the same result because only `capitalise p` occurs in it. *)
+Theorem C12_spelling_invariant_plain : forall nm st p P' E1 C E4 dns d Ld,
+  In (nm, st) all_sites ->
+  Forall (edge' py_is_ws) E1 -> Forall (edge' py_is_ws) (match C with Some E2 => E2 | None => [] end) ->
+  Forall (edge' py_is_ws) E4 ->
+  tidy py_is_ws p -> ~ In c_colon p -> expands p P' ->
+  d = (match C with Some _ => 0%Z | None => dns end) -> star_of st d = Some Ld ->
+  py_splitname st (E1 ++ lead C ++ P' ++ E4) dns
+  = Ok (d, maybe_capitalize py_upper_char (s_capitalize st) p,
+        prefix_of Ld ++ maybe_capitalize py_upper_char (s_capitalize st) p).
+Proof. exact py_spelling_plain. Qed.
+Print Assumptions C12_spelling_invariant_plain.
+
+(* Non-vacuity: concrete runs on the site "de".
+   "_ :bENUTZER__diskussion \t: <LRM>ßx_y " and "User talk:ßx y" both give (3, "SSx y", "Benutzer Diskussion:SSx y"),
+   and that name is a fixed point under default namespaces 0 and 6. *)
+Example C12_example :
+  exists st, In ([100; 101], st) all_sites /\
+  let r := Ok (3%Z, [83; 83; 120; 32; 121],
+               [66; 101; 110; 117; 116; 122; 101; 114; 32; 68; 105; 115; 107; 117; 115; 115; 105; 111; 110; 58; 83; 83; 120; 32; 121]) in
+  py_splitname st [95; 32; 58; 98; 69; 78; 85; 84; 90; 69; 82; 95; 95; 100; 105; 115; 107; 117; 115; 115; 105; 111; 110; 32; 9; 58; 32; 8206; 223; 120; 95; 121; 32] 6%Z = r /\
+  py_splitname st [85; 115; 101; 114; 32; 116; 97; 108; 107; 58; 223; 120; 32; 121] 0%Z = r /\
+  py_splitname st [66; 101; 110; 117; 116; 122; 101; 114; 32; 68; 105; 115; 107; 117; 115; 115; 105; 111; 110; 58; 83; 83; 120; 32; 121] 0%Z = r /\
+  py_splitname st [66; 101; 110; 117; 116; 122; 101; 114; 32; 68; 105; 115; 107; 117; 115; 115; 105; 111; 110; 58; 83; 83; 120; 32; 121] 6%Z = r.
+Proof. eexists. split; [left; reflexivity|]. vm_compute. repeat split. Qed.
+Print Assumptions C12_example.
+
+(* Why idempotence of main-namespace names is stated under default namespace 0: ":x" read with default namespace 6
+   (File) is page "X" of the main namespace; "X" itself, read with default namespace 6, is "Datei:X". *)
+Example C12_main_namespace_under_other_default :
+  exists st, In ([100; 101], st) all_sites /\
+  py_splitname st [58; 120] 6%Z = Ok (0%Z, [88], [88]) /\
+  py_splitname st [88] 0%Z = Ok (0%Z, [88], [88]) /\
+  py_splitname st [88] 6%Z = Ok (6%Z, [88], [68; 97; 116; 101; 105; 58; 88]).
+Proof. eexists. split; [left; reflexivity|]. vm_compute. repeat split. Qed.
+Print Assumptions C12_main_namespace_under_other_default.
